@@ -169,7 +169,7 @@ func (r *vfRecAcksRun) apply(op vfRecOp) {
 			r.apply(vfRecOp{E: "receive", El: true})
 		}
 		lim := op.Lim
-		if lim < 40 {
+		if lim < 20 {
 			lim = 1200
 		}
 		var got [][2]int64
@@ -232,7 +232,9 @@ func (r *vfRecAcksRun) apply(op vfRecOp) {
 		}
 		var rej, anyErr bool
 		head := int64(r.loss.spaces[r.space].start())
-		if !r.call(func() { rej, anyErr = vfRecPeerAck(&r.loss, r.now, r.space, op.Rs, time.Duration(op.D)*time.Millisecond, vfRecNoFate, nil) }) {
+		if !r.call(func() {
+			rej, anyErr = vfRecPeerAck(&r.loss, r.now, r.space, op.Rs, time.Duration(op.D)*time.Millisecond, vfRecNoFate, nil)
+		}) {
 			return
 		}
 		r.env.Emit(r.t, map[string]any{"e": "peerack", "rs": vfRecRanges(op.Rs), "rej": rej, "err": anyErr, "head": head})
@@ -318,6 +320,26 @@ func vfRecSeededAcks(env *vfEnv, t int, rnd *rand.Rand, maxr, nops int) {
 		side = serverSide
 	}
 	r := vfRecNewAcksRun(env, t, space, side, maxr, "seeded")
+	if t%6 == 0 {
+		// room sweep: a few ranges whose gaps need varints of different sizes, then an ACK frame
+		// for every amount of room a nearly full datagram can leave
+		base := int64(rnd.Intn(200))
+		pns := []int64{base, base + 2, base + 4}
+		big := base + 4 + int64([]int{70, 300, 20000}[rnd.Intn(3)])
+		pns = append(pns, big, big+int64([]int{2, 66, 17000}[rnd.Intn(3)]))
+		rnd.Shuffle(3, func(i, j int) { pns[i], pns[j] = pns[j], pns[i] })
+		for _, pn := range pns {
+			r.apply(vfRecOp{E: "arrive", Pn: pn, Ms: 1})
+			if r.inp >= 0 {
+				r.apply(vfRecOp{E: "receive", El: true, Ecn: rnd.Intn(4)})
+			}
+		}
+		for lim := 20; lim <= 60 && !r.dead; lim++ {
+			r.apply(vfRecOp{E: "ack", Ms: 1, Lim: lim})
+		}
+		r.finish()
+		return
+	}
 	adversarial := rnd.Intn(3) == 0 // the peer may acknowledge our ACKs from any packet
 	gappy := rnd.Intn(2) == 0
 	hi := int64(-1)
@@ -345,6 +367,10 @@ func vfRecSeededAcks(env *vfEnv, t int, rnd *rand.Rand, maxr, nops int) {
 			}
 			return lo + int64(rnd.Int63n(hi-lo+1))
 		default:
+			if rnd.Intn(3) == 0 {
+				// a long jump: later gaps need 2- and 4-byte varints in ACK frames
+				return hi + 1 + int64([]int{64, 70, 300, 16384, 20000}[rnd.Intn(5)]) + int64(rnd.Intn(5))
+			}
 			return hi + 1 + int64(rnd.Intn(30))
 		}
 	}
@@ -373,8 +399,8 @@ func vfRecSeededAcks(env *vfEnv, t int, rnd *rand.Rand, maxr, nops int) {
 			}
 		case x < 75:
 			lim := 0
-			if rnd.Intn(4) == 0 {
-				lim = 40 + rnd.Intn(30) // a nearly full datagram: the writer drops old ranges
+			if rnd.Intn(3) == 0 {
+				lim = 24 + rnd.Intn(46) // a nearly full datagram: the writer drops old ranges
 			}
 			n := len(r.largest)
 			r.apply(vfRecOp{E: "ack", Ms: rnd.Intn(30), Lim: lim})
@@ -683,13 +709,13 @@ func TestVerifQuicAcksConn(t *testing.T) {
 // ------------------------------------------------------------------------------- C26
 
 type vfRecLossRun struct {
-	env  *vfEnv
-	t    int
-	now  time.Time
-	c    lossState
-	gone [numberSpaceCount]bool
-	dead bool
-	stop bool // the connection was aborted (ACK for an unsent packet)
+	env     *vfEnv
+	t       int
+	now     time.Time
+	c       lossState
+	gone    [numberSpaceCount]bool
+	dead    bool
+	stop    bool // the connection was aborted (ACK for an unsent packet)
 	skipped [numberSpaceCount][]int64
 }
 
@@ -890,7 +916,7 @@ func vfRecSeededLoss(env *vfEnv, t int, rnd *rand.Rand, nops int) {
 	cur := 0
 	burst := rnd.Intn(3) == 0 // long flights without acknowledgements in between
 	lossy := rnd.Intn(2) == 0 // the peer leaves holes in its ACK frames
-	bulkAt := -1 // one long flight: the sent-packet ring buffer wraps around and grows
+	bulkAt := -1              // one long flight: the sent-packet ring buffer wraps around and grows
 	if rnd.Intn(6) == 0 {
 		bulkAt = rnd.Intn(nops)
 	}
